@@ -78,10 +78,10 @@ def main(argv: Optional[List[str]] = None) -> int:
         ctx = Ctx(a.root)
         obs = evaluate(prop, ctx)
         # zero-count rules: positive fixtures must fire on every run
-        from . import fixtures
-        fx = fixtures.run(prop)
         known = Known()
         viol, kn, stale = classify(prop, obs, known)
+        from . import fixtures
+        fx = fixtures.run(prop, ctx, {(o.rule, o.key) for o in obs if not o.ok})
         extra: dict = {
             "functions_analysed": len(ctx.prog.funcs),
             "modules_analysed": sorted(ctx.prog.modules),
